@@ -105,6 +105,48 @@ def judge(data, imports_only=False):
     return _rate(data, floor, why)
 
 
+_TRAILERS = {}
+
+
+def _trailers():
+    if not _TRAILERS:
+        import io
+        import pickle
+        import zipfile
+
+        buf = io.BytesIO()
+        with zipfile.ZipFile(buf, "w") as z:
+            z.writestr("archive/data.pkl", pickle.dumps({"weights": [1, 2, 3]}, 2))
+            z.writestr("archive/version", b"3\n")
+        _TRAILERS.update({"nothing": b"", "a harmless pickle": pickle.dumps([1, 2], 2), "a zip archive holding a harmless data.pkl": buf.getvalue(),
+                          "NUL padding": b"\x00" * 64})
+    return _TRAILERS
+
+
+def _file_face(data):
+    import os
+
+    import fickling
+    from vlib import env
+
+    os.makedirs(env.SCRATCH, exist_ok=True)
+    path = os.path.join(env.SCRATCH, f"c04-face.{os.getpid()}.pkl")
+    try:
+        for label, tail in _trailers().items():
+            with open(path, "wb") as f:
+                f.write(data + tail)
+            try:
+                safe = fickling.is_likely_safe(path)
+            except Exception:  # noqa: BLE001 - refusing the file is not a low verdict
+                continue
+            if safe:
+                return f"is_likely_safe() says True for the file holding it followed by {label}"
+    finally:
+        if os.path.exists(path):
+            os.remove(path)
+    return None
+
+
 def _rate(data, floor, why):
     """fickling's side: the lowest verdict any public path gives must not be below the floor"""
     from fickling.analysis import check_safety
@@ -131,6 +173,12 @@ def _rate(data, floor, why):
             sev, rank = moved, RANK[moved.name]
     except Exception:  # noqa: BLE001
         return None, "analysis-raised-or-refused", floor
+    if floor > 0 and len(data) % 3 == 0:
+        # the file-level face of the same verdict, with benign bytes behind the pickle (nothing, a
+        # harmless pickle, an innocent zip archive, NULs): never "likely safe" above the floor 0
+        m = _file_face(data)
+        if m:
+            return Failure({"hex": data.hex()}, f"{data!r} would perform {why!r} but {m}"), f"floor{floor}", floor
     if rank < floor:
         names = {v: k for k, v in RANK.items()}
         return (
@@ -146,6 +194,8 @@ def _rate(data, floor, why):
 
 
 def replay(case):
+    if "cli_many" in case:
+        return cli_many(case["cli_many"][0], bytes.fromhex(case["cli_many"][1]))
     if "floor" in case:
         return _rate(bytes.fromhex(case["hex"]), case["floor"], ("call", case.get("label")))[0]
     return judge(bytes.fromhex(case["hex"]), case.get("imports_only", False))[0]
@@ -182,7 +232,7 @@ def extreme_programs():
 
 
 def shards(tier):
-    out = [{"kind": "extreme"}]
+    out = [{"kind": "extreme"}, {"kind": "cli_many"}]
     if tier == "quick":
         out += [{"kind": "sample", "n": 1500, "idx": i} for i in range(16)]
     else:
@@ -211,8 +261,41 @@ def _do_cell(res, cell):
     return f
 
 
+def cli_many(n, payload):
+    """the command-line face of the floor: a file of n copies of a pickle whose floor is above
+    LIKELY_SAFE, checked by a real `python -m fickling --check-safety` process, never exits 0"""
+    import os
+    import subprocess
+    import sys
+
+    from vlib import env
+    from vlib.sandbox import Scratch
+
+    with Scratch("c04") as scratch:
+        path = os.path.join(scratch.path, "many.pkl")
+        with open(path, "wb") as f:
+            f.write(payload * n)
+        child_env = dict(os.environ, PYTHONPATH=os.pathsep.join([env.REPO] + [p for p in sys.path if p]))
+        pr = subprocess.run([sys.executable, "-m", "fickling", "--check-safety", "--json-output",
+                             os.path.join(scratch.path, "r.json"), path], stdout=subprocess.DEVNULL,
+                            stderr=subprocess.DEVNULL, env=child_env, cwd=scratch.path, timeout=900)  # fmt: skip
+    if pr.returncode == 0:
+        return Failure({"cli_many": [n, payload.hex()]},
+                       f"`python -m fickling --check-safety` exits 0 (likely safe) on a file of {n} copies of {payload!r}")
+    return None
+
+
 def run_shard(spec, seed):
     res = ShardResult()
+    if spec["kind"] == "cli_many":
+        for n in (1, 255, 256, 512):
+            for payload in (b"cbuiltins\neval\n(S'1+1'\ntR.", b"cos\ngetpid\n)R."):
+                f = cli_many(n, payload)
+                res.note((n, payload.hex()), n > 1, klass="cli-many", sample={"cli_many": [n, payload.hex()]})
+                if f is not None:
+                    res.failures.append(f)
+                    return res
+        return res
     if spec["kind"] == "extreme":
         for label, data, floor in extreme_programs():
             f, klass, _ = _rate(data, floor, ("call", label))
